@@ -8,8 +8,12 @@ import (
 	"hash/fnv"
 	"os"
 	"path/filepath"
+	"runtime/pprof"
 	"sort"
+	"strings"
 	"sync"
+	"sync/atomic"
+	"time"
 )
 
 type Collector struct {
@@ -56,6 +60,7 @@ func Hash(s string) string {
 
 // Add records one generated case. key identifies the case for distinctness (hashed).
 func (c *Collector) Add(key string, nontrivial bool, classes map[string]int, steps int, sample interface{}) {
+	Progress()
 	c.mu.Lock()
 	defer c.mu.Unlock()
 	c.Cases++
@@ -126,4 +131,42 @@ func Flush() {
 		name := filepath.Join(dir, fmt.Sprintf("%s.%s.%d.json", c.Prop, c.Part, os.Getpid()))
 		_ = os.WriteFile(name, b, 0o666)
 	}
+}
+
+var progress int64
+
+// Progress is called whenever a case starts or ends.
+func Progress() { atomic.AddInt64(&progress, 1) }
+
+// Watchdog ends the test process (exit 3: infrastructure, never a verdict) with a goroutine dump when no
+// case has started or ended for limit: a wedged harness must not hold a check hostage.
+func Watchdog(limit time.Duration) {
+	for _, a := range os.Args {
+		if strings.HasPrefix(a, "-test.fuzz") {
+			return // native fuzzing has no cases in this sense
+		}
+	}
+	go func() {
+		last := atomic.LoadInt64(&progress)
+		lastChange := time.Now()
+		for {
+			time.Sleep(2 * time.Second)
+			if p := atomic.LoadInt64(&progress); p != last {
+				last, lastChange = p, time.Now()
+				continue
+			}
+			if time.Since(lastChange) > limit {
+				path := os.Getenv("VERIF_FAILLOG")
+				if path == "" {
+					path = filepath.Join(os.TempDir(), "verif-watchdog")
+				}
+				if f, err := os.Create(path + ".stacks"); err == nil {
+					_ = pprof.Lookup("goroutine").WriteTo(f, 2)
+					f.Close()
+				}
+				fmt.Fprintf(os.Stderr, "WATCHDOG: no case progress for %s; goroutine dump in %s.stacks\n", limit, path)
+				os.Exit(3)
+			}
+		}
+	}()
 }
